@@ -3,8 +3,8 @@
    [handle] is the handler after the four proposed repairs ([handle_v repaired]);
    [handle_v original] is the code as found. [lv] stands for the parsers of
    external crates that the model does not re-state (quantified over). *)
-From Coq Require Import NArith List Bool.
-From RV Require Import Http.DispatchText Http.DispatchModel Http.DispatchProofs Http.ConcModel Http.ConcProofs Http.WireModel Http.WireProofs.
+From Coq Require Import NArith List Bool Permutation.
+From RV Require Import Http.DispatchText Http.DispatchModel Http.DispatchProofs Http.ConcModel Http.ConcProofs Http.WireModel Http.WireProofs Http.RouterListModel Http.RouterListProofs.
 Import ListNotations.
 Local Open Scope N_scope.
 
@@ -356,3 +356,85 @@ Print Assumptions C12_wire_keeps_answering.
 Example C12_wire_example :
   map (answer_of lv0 cfg_rib) (wire_conn example_conn) = [AResp (Resp 400 false); AHyper 400].
 Proof. vm_compute. reflexivity. Qed.
+
+(* ---------------------------------------------------------------- the router list over a population of routers *)
+(* Every sort key is answered whatever the router states: for every sort_by / sort_order value (present or not) and every
+   list of monitored routers - each still initiating, or past its Initiation with any set of peers up, EoR capable or not,
+   dumping or not, any error counters - sort_routers returns what the two parameters alone decide: the page with ALL
+   routers, or the 400 for an unknown sort_by (first) / sort_order. It never panics. *)
+Theorem C12_router_list_every_sort_key_answered : forall sb so rs,
+  sort_routers true sb so rs = expected_result sb so (N.of_nat (List.length rs)) /\
+  sort_routers true sb so rs <> RLPanic.
+Proof. exact (fun sb so rs => conj (sort_routers_total sb so rs) (sort_routers_never_panics sb so rs)). Qed.
+Print Assumptions C12_router_list_every_sort_key_answered.
+
+(* ... hence the processor over ANY population answers exactly what [routers_process] (the model used by every theorem
+   above for a registered `PRouters base`) says: status classification, 404, first-answer-wins, histories, concurrency
+   and wire theorems hold whatever routers are connected. *)
+Theorem C12_router_list_status_independent_of_routers : forall base rs r,
+  routers_process_st true base rs r = routers_process base r.
+Proof. exact routers_process_st_indep. Qed.
+Print Assumptions C12_router_list_status_independent_of_routers.
+
+(* The request space named in the design notes, swept by computation: 15 sort_by values (absent, the 12 keys, "bogus",
+   empty) x 5 sort_order values x the 64 populations made of {initiating, no peer up, peers up none EoR capable, all
+   dumping, mixed, all peers down again}. *)
+Theorem C12_router_list_request_space : rl_space_ok true = true.
+Proof. exact rl_space_guarded. Qed.
+Print Assumptions C12_router_list_request_space.
+
+(* The numbers a percentage key divides by, over all message histories of a router: dumping <= EoR capable <= up
+   (so "no EoR-capable peer" is the one way to a zero divisor that "no peer up" does not cover). *)
+Theorem C12_router_list_counts_ordered : forall evs,
+  let ps := peers_of (rl_run evs) in n_dumping ps <= n_eor ps /\ n_eor ps <= n_up ps.
+Proof. exact rl_counts_ordered. Qed.
+Print Assumptions C12_router_list_counts_ordered.
+
+(* The percentage keys WITHOUT the zero guard of calc_u8_pc (`v * 10_000 / total`, seeded change C12-c2): a router past its
+   Initiation with no peer up, resp. no EoR-capable peer up, panics the handler - also when the request would have been
+   refused for its sort_order; the same requests are answered by the code as it is. *)
+Theorem C12_router_list_unguarded_pc_refuted :
+  sort_routers false (Some k_peers_up_eor_capable_pc) None [st_no_peers] = RLPanic /\
+  sort_routers false (Some k_peers_up_dumping_pc) None [st_none_eor] = RLPanic /\
+  sort_routers false (Some k_peers_up_eor_capable_pc) (Some k_bogus) [st_mixed; st_all_down] = RLPanic /\
+  sort_routers true (Some k_peers_up_eor_capable_pc) None [st_no_peers] = RLRows 1 /\
+  sort_routers true (Some k_peers_up_dumping_pc) None [st_none_eor] = RLRows 1.
+Proof. exact unguarded_pc_refuted. Qed.
+Print Assumptions C12_router_list_unguarded_pc_refuted.
+
+(* ... and what the unguarded variant does satisfy: populations in which every router past its Initiation has an
+   EoR-capable peer up (the hypothesis that excludes the defect class). *)
+Theorem C12_router_list_unguarded_pc_partial : forall sb so rs,
+  forallb has_eor_peer rs = true ->
+  sort_routers false sb so rs = expected_result sb so (N.of_nat (List.length rs)).
+Proof. exact sort_routers_unguarded_partial. Qed.
+Print Assumptions C12_router_list_unguarded_pc_partial.
+
+(* The ORDER of the rows. For every sort_by value (one of the keys or not), every sort_order and every population of
+   routers (any states, any sysName / sysDesc): the rows of the page are a permutation of the population's rows - every
+   router once, paired with its own key [row_key] - and the keys are non-decreasing down the page, up the page for
+   sort_order=desc ([in_reading_order]). Exact up to the order of rows with equal keys (sort_unstable_by). *)
+Theorem C12_router_list_sorted_by_key : forall sb so rs,
+  exists keyed rows,
+    keyed_from true sb 0 rs = Some keyed /\
+    map snd keyed = map N.of_nat (seq 0 (List.length rs)) /\
+    page_rows true sb so rs = Some rows /\
+    Permutation keyed rows /\
+    sortedb (in_reading_order so (map fst rows)) = true.
+Proof. exact page_rows_sorted_by_key. Qed.
+Print Assumptions C12_router_list_sorted_by_key.
+
+(* The population the engine's corpus uses to tell the keys apart: for every two different judged keys k1, k2, sorting
+   it by k2 leaves the k1 column out of order - a key that sorts on the wrong metric cannot pass. *)
+Theorem C12_router_list_keys_told_apart : all_keys_disagree rl_discriminating = true.
+Proof. exact discriminating_population. Qed.
+Print Assumptions C12_router_list_keys_told_apart.
+
+(* non-vacuity: the mixed router has 3 peers up, 2 EoR capable (66%), 1 dumping (50%); the population of all six named
+   states is listed under the percentage key in descending order; a bogus key is a 400 *)
+Example C12_router_list_example :
+  rl_cell st_mixed = Some (3, 2, 66, 1, 50) /\ rl_cell st_all_down = Some (0, 0, 0, 0, 0) /\
+  sort_routers true (Some k_peers_up_dumping_pc) (Some k_desc) rl_named_states = RLRows 6 /\
+  sort_routers true (Some k_bogus) None rl_named_states = RLErr 0 /\
+  forallb has_eor_peer rl_named_states = false /\ forallb has_eor_peer [st_initiating; st_mixed; st_all_dumping] = true.
+Proof. vm_compute. repeat split; reflexivity. Qed.
